@@ -42,34 +42,43 @@ fn main() {
             s.update(j.to_le_bytes());
             s.finalize().into()
         };
+        use rayon::prelude::*;
         for p in refmodel::ALL {
-            let mut d = Sha256::new();
-            for i in 0..cases {
-                let xi = h("xi", p.id, i, 0);
-                let mfull = h("m", p.id, i, 0);
-                let m = &mfull[..(i as usize * 7) % 33];
-                let cfull = h("c", p.id, i, 0);
-                let ctx = &cfull[..(i as usize) % 3];
-                let (pk, sk) = refmodel::keygen_internal(&p, &xi);
-                d.update(&pk);
-                d.update(&sk);
-                for j in 0..4u32 {
-                    let mode = refmodel::MODES[j as usize];
-                    let rnd = h("rnd", p.id, i, j);
-                    let (sig, _) = refmodel::sign(&p, &sk, m, ctx, mode, &rnd, 100_000).expect("reference sign");
-                    d.update(&sig);
-                    let v1 = refmodel::verify(&p, &pk, m, &sig, ctx, mode).accepted();
-                    let mut bad = sig.clone();
-                    let pos = ((i + j) as usize * 131) % bad.len();
-                    bad[pos] ^= 1;
-                    let v2 = refmodel::verify(&p, &pk, m, &bad, ctx, mode).accepted();
-                    let mut m2 = m.to_vec();
-                    m2.push(0);
-                    let v3 = refmodel::verify(&p, &pk, &m2, &sig, ctx, mode).accepted();
-                    d.update([u8::from(v1), u8::from(v2), u8::from(v3)]);
-                }
+            let per_case: Vec<[u8; 32]> = (0..cases)
+                .into_par_iter()
+                .map(|i| {
+                    let mut d = Sha256::new();
+                    let xi = h("xi", p.id, i, 0);
+                    let mfull = h("m", p.id, i, 0);
+                    let m = &mfull[..(i as usize * 7) % 33];
+                    let cfull = h("c", p.id, i, 0);
+                    let ctx = &cfull[..(i as usize) % 3];
+                    let (pk, sk) = refmodel::keygen_internal(&p, &xi);
+                    d.update(&pk);
+                    d.update(&sk);
+                    for j in 0..4u32 {
+                        let mode = refmodel::MODES[j as usize];
+                        let rnd = h("rnd", p.id, i, j);
+                        let (sig, _) = refmodel::sign(&p, &sk, m, ctx, mode, &rnd, 100_000).expect("reference sign");
+                        d.update(&sig);
+                        let v1 = refmodel::verify(&p, &pk, m, &sig, ctx, mode).accepted();
+                        let mut bad = sig.clone();
+                        let pos = ((i + j) as usize * 131) % bad.len();
+                        bad[pos] ^= 1;
+                        let v2 = refmodel::verify(&p, &pk, m, &bad, ctx, mode).accepted();
+                        let mut m2 = m.to_vec();
+                        m2.push(0);
+                        let v3 = refmodel::verify(&p, &pk, &m2, &sig, ctx, mode).accepted();
+                        d.update([u8::from(v1), u8::from(v2), u8::from(v3)]);
+                    }
+                    d.finalize().into()
+                })
+                .collect();
+            let mut outer = Sha256::new();
+            for di in &per_case {
+                outer.update(di);
             }
-            let out: [u8; 32] = d.finalize().into();
+            let out: [u8; 32] = outer.finalize().into();
             println!("set={} digest={}", p.id, hex::encode(out));
         }
         return;
